@@ -60,6 +60,7 @@ type State struct {
 	threads   []*threadRec
 	wgAdded   map[string]Term
 	loopHeap  map[*ssa.BasicBlock]*Heap
+	loopVariant map[*ssa.BasicBlock]Term // value of the loop's decreases expression at the head of the current iteration
 	closOrd   int
 	dead      bool
 	forked    []*ssa.Go
@@ -88,6 +89,10 @@ func (s *State) clone() *State {
 	n.joinBase = s.joinBase
 	for k, v := range s.wgAdded {
 		n.wgAdded[k] = v
+	}
+	n.loopVariant = map[*ssa.BasicBlock]Term{}
+	for k, v := range s.loopVariant {
+		n.loopVariant[k] = v
 	}
 	for k, v := range s.loopHeap {
 		n.loopHeap[k] = v
@@ -1037,7 +1042,39 @@ func (vc *VC) loopEnter(st *State, li *loopInfo, from *ssa.BasicBlock) {
 		for _, inv := range li.spec.Invariants {
 			st.assume = append(st.assume, vc.trClause(env, inv))
 		}
+		if li.spec.Decreases != nil {
+			if st.loopVariant == nil {
+				st.loopVariant = map[*ssa.BasicBlock]Term{}
+			}
+			v := vc.d.freshConst("variant", "Int")
+			st.assume = append(st.assume, eq(v, env.tr(li.spec.Decreases).T))
+			st.loopVariant[b] = v
+		}
 	}
+	vc.terminationCheck(st, li)
+}
+
+// terminationCheck: in a function whose contract says "terminates", every loop is either a range loop (bounded by
+// construction) or carries a decreases clause; anything else is an obligation that cannot be discharged.
+func (vc *VC) terminationCheck(st *State, li *loopInfo) {
+	if vc.effective == nil || !vc.effective.Terminates {
+		return
+	}
+	if li.spec != nil && li.spec.Decreases != nil {
+		return
+	}
+	for _, ins := range li.header.Instrs {
+		if phi, ok := ins.(*ssa.Phi); ok && phi.Comment == "rangeindex" && vc.rangeLimit(li, phi) != nil {
+			return
+		}
+		if nx, ok := ins.(*ssa.Next); ok {
+			if _, isRange := nx.Iter.(*ssa.Range); isRange {
+				return
+			}
+		}
+	}
+	vc.oblige(st, "false", fmt.Sprintf("loop%d:terminates", li.ordinal), "termination", posString(vc.w, vc.loopPos(li)), vc.props(),
+		"the loop has a variant (decreases clause) - none is given and it is not a range loop", "")
 }
 
 func (vc *VC) loopPos(li *loopInfo) token.Pos {
@@ -1128,18 +1165,11 @@ func (vc *VC) loopBackEdge(st *State, li *loopInfo, from *ssa.BasicBlock) {
 			vc.oblige(post, g, fmt.Sprintf("loop%d:%s:step", li.ordinal, inv.Label), "invariant-step", site, clauseProps(inv, vc.props()), inv.Src, "")
 		}
 		if li.spec.Decreases != nil {
-			// variant at back edge < variant at header, and bounded below
-			cur := vc.loopEnv(st, li, newHeap())
-			// value at the head of this iteration: evaluate with header phi values (st has them) and header heap
-			hd := st.clone()
-			if h := st.loopHeap[b]; h != nil {
-				_ = h
+			// the variant is bounded below at the head of the iteration and strictly smaller at the back edge
+			if before, ok := st.loopVariant[b]; ok {
+				after := env.tr(li.spec.Decreases).T
+				vc.oblige(post, and(app("<=", "0", before), app("<", after, before)), fmt.Sprintf("loop%d:variant-decreases", li.ordinal), "termination", site, vc.props(), "decreases "+exprString(li.spec.Decreases), "")
 			}
-			_ = cur
-			before := vc.loopEnv(hd, li, newHeap()).tr(li.spec.Decreases).T
-			after := vc.loopEnv(post, li, newHeap()).tr(li.spec.Decreases).T
-			_ = before
-			_ = after
 		}
 	}
 }
